@@ -302,9 +302,11 @@ Section EVAL.
               match order_groups (s_orderby q) gs with
               | None => None
               | Some sorted =>
+                (* LIMIT without ORDER BY keeps ARBITRARY rows: whatever comes first after `tie` *)
                 let limited := match s_limit q with
                                | None => Some sorted
-                               | Some (IntV n) => Some (firstn (Z.to_nat n) sorted)
+                               | Some (IntV n) =>
+                                 Some (firstn (Z.to_nat n) (match s_orderby q with [] => tie _ sorted | _ => sorted end))
                                | Some _ => None end in
                 match limited with
                 | None => None
